@@ -32,8 +32,9 @@ def equilibrium(neg, A, B, off=0):
         sgn = -1.0 if neg else 1.0
         psi = sgn * (A * (r[:, None] - 4.0) ** 2 + B * z[None, :] ** 2)
         lcfs = np.array([[1.5, 6.5, 6.5, 1.5], [-2.5, -2.5, 2.5, 2.5]])
+        limiter = np.array([[1.5, 6.5, 6.5, 4.5, 4.5, 1.5], [-2.5, -2.5, 0.5, 0.5, 2.5, 2.5]])
         _EQ[key] = EFITEquilibrium(r, z, psi, sgn * off / 2.0, sgn * (A * 4 + B), Point2D(4.0, 0.0), [], [], np.array([[0.0, 1.0], [F0, F0]]),
-                                   np.array([[0.0, 1.0], [1.0, 2.0]]), BVAC_R, BVAC, lcfs, None, 0.0)
+                                   np.array([[0.0, 1.0], [1.0, 2.0]]), BVAC_R, BVAC, lcfs, limiter, 0.0)
     return _EQ[key]
 
 
@@ -57,6 +58,8 @@ def replay(rec, ctx):
     inside = bool(eq.inside_lcfs(r, z))
     if inside != rec["inside"]:
         bad("inside_lcfs-differs", f"{inside} vs {rec['inside']}")
+    if "inside_limiter" in rec and bool(eq.inside_limiter(r, z)) != rec["inside_limiter"]:
+        bad("inside_limiter-differs", f"{bool(eq.inside_limiter(r, z))} vs {rec['inside_limiter']}")
     # between the nodes: the normalised flux is never negative and the mapped profile is the profile at that flux
     if r < 7 and z < 3 and rec["angle"] == [1, 0, 1]:
         import numpy as _np
